@@ -345,6 +345,15 @@ pub fn check_history(c: &HistoryCase) -> CaseResult {
     let (lb2, _) = apply(&c.b, &c.edits_b);
     let clip2 = la2.sutherland_hodgman_clip(lb2).unsigned_area();
     ensure!((clip2 - ref_i).abs() <= tol, "history-clip-moved", "sutherland_hodgman_clip on the edited boxes themselves gives {} but the current boxes intersect in {}", clip2, ref_i);
+    // regenerating the vertices after the edits yields the polygon of the current geometry
+    let (mut la3, ca3) = apply(&c.a, &c.edits_a);
+    la3.gen_vertices();
+    if ca3.angle.is_some() {
+        match la3.get_cached_vertices() {
+            Some(p) => ensure!(*p == la3.get_vertices(), "history-regenerated-vertices", "gen_vertices() after edits keeps a polygon that is not the current one"),
+            None => return Err(Fail::new("history-regenerated-vertices", "gen_vertices() left no polygon for a rotated box")),
+        }
+    }
     let stale_possible = c.edits_a.iter().chain(c.edits_b.iter()).position(|e| matches!(e, BoxEdit::GenVertices)).is_some();
     Ok(CaseOk::new(stale_possible && ref_i > tol).label_if(stale_possible, "vertices_generated_before_edit"))
 }
